@@ -1,4 +1,5 @@
 -- root of the `Librfn` library: everything a clean `lake build` must check
+import Librfn.Props.C15
 import Librfn.Props.C16
 import Librfn.Props.C17
 import Librfn.Props.C19
